@@ -17,9 +17,9 @@ import (
 // C08: Compile is total.
 
 var c08Alpha3 = []string{"a", "$", "1", ".", "[", "]", "(", ")", "{", "}", "\"", "'", "`", "/", "\\", "!", "~", ":", "<", "?", "*", "-", " ", "é"}
-var c08SigAlpha = []string{"n", "s", "a", "f", "(", ")", "<", ">", "?", "+", "-", ":", "!", "x", "é"}
+var c08SigAlpha = []string{"n", "s", "a", "f", "(", ")", "<", ">", "?", "+", "-", ":", "!", "x", "é", " ", "\f", "\u00a0"}
 
-var c08Soup = []string{"a", "b", "$", "$x", "$$", "1", "0", "1.5", "1e5", "1e", "\"s\"", "'t'", "`n`", ".", "..", "[", "]", "(", ")", "{", "}", ",", ";", ":", ":=", "?", "+", "-", "*", "**", "/", "%", "|", "=", "!=", "<", "<=", ">", ">=", "~>", "^", "&", "!", "~", "and", "or", "in", "true", "false", "null", "function", "λ", "\\", "\"", "'", "`", " ", "\n", "é", "😀", "\\u", "\\u00", "\\ud83d", "/a/", "/a/i", "/", "[]", "()", "{}", "<n>", "<s-:s>", "<a<n>>", "\x00", "\xff", "\xc3"}
+var c08Soup = []string{"a", "b", "$", "$x", "$$", "1", "0", "1.5", "1e5", "1e", "\"s\"", "'t'", "`n`", ".", "..", "[", "]", "(", ")", "{", "}", ",", ";", ":", ":=", "?", "+", "-", "*", "**", "/", "%", "|", "=", "!=", "<", "<=", ">", ">=", "~>", "^", "&", "!", "~", "and", "or", "in", "true", "false", "null", "function", "λ", "\\", "\"", "'", "`", " ", "\n", "é", "😀", "\\u", "\\u00", "\\ud83d", "/a/", "/a/i", "/", "[]", "()", "{}", "<n>", "<s-:s>", "<a<n>>", "\x00", "\xff", "\xc3", "\f", "\v", "\u00a0", "\u0085", "\u2028", "\u3000"}
 
 func enumStrings(alpha []string, maxLen int) int64 {
 	var n, p int64 = 0, 1
